@@ -20,10 +20,10 @@ FIX = {
  "F11": ("b1f6e32", "SimplicialComplex(Hypergraph(..., name='y')) dropped the network attributes (also through HIF for complexes)"),
  "F12": ("10fb8cf", "read_incidence_matrix failed on 1 x m, n x 1 and 1 x 1 files"),
  "F13": ("613ec5e", "uniform_HSBM with a block probability equal to 1 raised TypeError"),
- "F17": ("6ecd9c0", "bulk adders iterated the members of each element twice: add_edges_from([(iter([1,2]),'x')]) left an edge whose members are not nodes (Hypergraph, DiHypergraph), add_edges_from([iter([3,4]), ...]) an empty first edge, add_simplices_from([(iter([1,2,3]),'x')]) a TypeError and an empty simplex"),
- "F18": ("624dedf", "an explicit edge ID of another hashable type than int/float/str/tuple (UUID, complex, frozenset, bytes, Fraction-like, an int too large for a float) made add_edge / add_simplex / add_node_to_edge raise TypeError/ValueError/OverflowError from update_uid_counter after the edge was stored; add_simplex([1,2,3], idx=UUID(int=7)) left the complex without the faces"),
- "F19": ("c4a1a22", "from_hypergraph_dict / from_hif_dict (and read_json / read_hif) forwarded attributes as keyword arguments: a node attribute called 'node' (any node in the standard dict, an isolated node in HIF) or an attribute called 'members' / 'idx' on an empty edge made reading fail with TypeError"),
- "F14": ("80dbdd7", "spectral_clustering(H, 2, seed=s) differed between two calls with the same seed (ARPACK start vector unseeded; ARPACK's internal restart stream persists across calls - e.g. Hypergraph([[6],[2,5,0,1]]))"),
+ "F17": ("1d1684f", "bulk adders iterated the members of each element twice: add_edges_from([(iter([1,2]),'x')]) left an edge whose members are not nodes (Hypergraph, DiHypergraph), add_edges_from([iter([3,4]), ...]) an empty first edge, add_simplices_from([(iter([1,2,3]),'x')]) a TypeError and an empty simplex"),
+ "F18": ("0a3e879", "an explicit edge ID of another hashable type than int/float/str/tuple (UUID, complex, frozenset, bytes, Fraction-like, an int too large for a float) made add_edge / add_simplex / add_node_to_edge raise TypeError/ValueError/OverflowError from update_uid_counter after the edge was stored; add_simplex([1,2,3], idx=UUID(int=7)) left the complex without the faces"),
+ "F19": ("4a1ad61", "from_hypergraph_dict / from_hif_dict (and read_json / read_hif) forwarded attributes as keyword arguments: a node attribute called 'node' (any node in the standard dict, an isolated node in HIF) or an attribute called 'members' / 'idx' on an empty edge made reading fail with TypeError"),
+ "F14": ("f099939", "spectral_clustering(H, 2, seed=s) differed between two calls with the same seed (ARPACK start vector unseeded; ARPACK's internal restart stream persists across calls - e.g. Hypergraph([[6],[2,5,0,1]]))"),
 }
 # (property, fix key, replay file)   -- a fixed entry suppresses nothing; its replay is run first by every check
 FIXED = [
